@@ -29,6 +29,12 @@ CHECKS = {
         text="Bounded model checking of the real visitor: for every rooted ordered tree of <=3 (4) nodes, every set of extension timings, and every assignment of a visit action (5 values) and depart action (2 values) to the nodes the walk actually reaches, CrossHair exhausts the paths of walk/walkabout and the recorded trace satisfies: no escape, each node entered once, extensions enter exactly the nodes the main visitor enters, enter/leave nest like the tree, entry order BEFORE,OUTTER,main,AFTER,INNER and exit order BEFORE,INNER,main,AFTER,OUTTER, main trace equals the documented pruning semantics. The builder stack discipline is checked on 4394 generated modules.",
         note="Trusted: CrossHair exhaustion verdict; my executable reading of the docstrings in visitor.py (reference walker in the harness); only the main visitor prunes.",
     ),
+    "C16": dict(
+        level="model_checking", design="DESIGN.md §3 C16",
+        technique="CrossHair (z3) symbolic execution of the line-number and counting kernels: extract_docstring_linenum (symbolic text, unbounded ints), Documentable.report, System.msg (unbounded ints), reportErrors/Field.report, driver.main exit status",
+        text="Bounded model checking of the arithmetic behind every warning: docstring start line for every text of <=4 (5) characters and every int line number incl. the shift-by-k law; report() line/file selection for all small line values, sections and object kinds; msg() counting/printing for all ints; reportErrors/Field.report offsets and once-per-object; main()'s exit status for every (violations, parse errors, -W). The per-construct line numbers computed inside the epytext/docutils parsers are inputs here, not verified.",
+        note="Trusted: CrossHair exhaustion verdict. Stubs: System.msg capture, Options.from_args/get_system/make in the exit-status harness under the invariant parse_errors non-empty => violations >= 1.",
+    ),
 }
 
 NOT_APPLICABLE = {
